@@ -137,6 +137,9 @@ class CS1:
             lines += self.stmt('', 0)
         if self.r.random() < 0.25:
             lines.append(self.r.choice(['zz = 1 // 0', 'zz = undefined_thing', 'zz = [1, 2][7]', 'zz = int("seven")', 'raise ValueError("stop")',
-                                        'zz = {"a": 1}["b"]', 'zz = "a" + 1']))
+                                        'zz = {"a": 1}["b"]', 'zz = "a" + 1',
+                                        # failures raised inside (pure Python) library code the program calls
+                                        'import random\nzz = random.choice([])', 'import statistics\nzz = statistics.mean([])',
+                                        'import json\nzz = json.loads("{oops")', 'import random\nzz = random.randint(5, 1)']))
             lines.append('print("unreachable")')
         return '\n'.join(lines) + '\n', list(self.inputs), list(self.funcs)
